@@ -260,7 +260,7 @@ func (g *Gen) unop(b *ssa.BasicBlock, x *ssa.UnOp, h Heap) Heap {
 		g.define(x, Val{T: not(v.T), S: SBool, Ty: x.Type()})
 	case token.SUB:
 		if v.S == SF64 {
-			g.define(x, Val{T: sx("fp.neg", v.T), S: SF64, Ty: x.Type()})
+			g.define(x, Val{T: sx("f.neg", v.T), S: SF64, Ty: x.Type()})
 		} else {
 			g.define(x, Val{T: wrapTo(sx("-", v.T), x.Type(), true), S: SInt, Ty: x.Type()})
 			g.overflowCheck(b, x.Pos(), sx("-", v.T), x.Type())
@@ -428,29 +428,29 @@ func (g *Gen) binop(b *ssa.BasicBlock, x *ssa.BinOp, h Heap) {
 		var t string
 		switch x.Op {
 		case token.ADD:
-			g.define(x, Val{T: sx("fp.add", "RNE", l.T, r.T), S: SF64, Ty: T})
+			g.define(x, Val{T: sx("f.add", l.T, r.T), S: SF64, Ty: T})
 			return
 		case token.SUB:
-			g.define(x, Val{T: sx("fp.sub", "RNE", l.T, r.T), S: SF64, Ty: T})
+			g.define(x, Val{T: sx("f.sub", l.T, r.T), S: SF64, Ty: T})
 			return
 		case token.MUL:
-			g.define(x, Val{T: sx("fp.mul", "RNE", l.T, r.T), S: SF64, Ty: T})
+			g.define(x, Val{T: sx("f.mul", l.T, r.T), S: SF64, Ty: T})
 			return
 		case token.QUO:
-			g.define(x, Val{T: sx("fp.div", "RNE", l.T, r.T), S: SF64, Ty: T})
+			g.define(x, Val{T: sx("f.div", l.T, r.T), S: SF64, Ty: T})
 			return
 		case token.EQL:
-			t = sx("fp.eq", l.T, r.T)
+			t = sx("f.eq", l.T, r.T)
 		case token.NEQ:
-			t = not(sx("fp.eq", l.T, r.T))
+			t = not(sx("f.eq", l.T, r.T))
 		case token.LSS:
-			t = sx("fp.lt", l.T, r.T)
+			t = sx("f.lt", l.T, r.T)
 		case token.LEQ:
-			t = sx("fp.leq", l.T, r.T)
+			t = sx("f.leq", l.T, r.T)
 		case token.GTR:
-			t = sx("fp.gt", l.T, r.T)
+			t = sx("f.gt", l.T, r.T)
 		case token.GEQ:
-			t = sx("fp.geq", l.T, r.T)
+			t = sx("f.geq", l.T, r.T)
 		}
 		g.define(x, Val{T: t, S: SBool, Ty: T})
 	case l.S == SStr:
@@ -764,15 +764,10 @@ func (g *Gen) convert1(b *ssa.BasicBlock, x *ssa.Convert, h Heap) Heap {
 	case fs == SF64 && ts == SF64:
 		g.vals[x] = retype(v, x.Type())
 	case fs == SInt && ts == SF64:
-		g.define(x, Val{T: sx("(_ to_fp 11 53)", "RNE", sx("to_real", v.T)), S: SF64, Ty: x.Type()})
+		g.define(x, Val{T: sx("f.ofint", v.T), S: SF64, Ty: x.Type()})
 	case fs == SF64 && ts == SInt:
 		r := g.fresh(x.Type(), "f2i")
-		// exact when the float is integral and in range
-		lo, hi, _ := intRange(x.Type())
-		asf := sx("(_ to_fp 11 53)", "RTZ", sx("to_real", r.T))
-		g.S.assert(imp(and(not(sx("fp.isNaN", v.T)), not(sx("fp.isInfinite", v.T)),
-			sx("fp.leq", sx("(_ to_fp 11 53)", "RNE", sx("to_real", lo)), v.T), sx("fp.leq", v.T, sx("(_ to_fp 11 53)", "RTZ", sx("to_real", hi)))),
-			eq(sx("fp.roundToIntegral", "RTZ", v.T), asf)))
+		g.Assumed["float64 -> integer conversions are unconstrained (floats are abstract)"] = true
 		g.vals[x] = r
 	default:
 		_ = to
